@@ -289,6 +289,9 @@ pub fn exercise(t: &mut Tracer, s: &ReqSpec, rng: &mut StdRng, nsched: usize, ch
         Some(b) => b,
         None => return,
     };
+    if !s.hops.is_empty() {
+        t.class("req:on-redirected-flow");
+    }
     // reference run with one big buffer
     let mut big = vec![0u8; 1 << 16];
     let mut reference: Vec<u8> = vec![];
@@ -475,10 +478,13 @@ pub fn c02(o: &Opts, t: &mut Tracer) -> Value {
 pub fn c16(o: &Opts, t: &mut Tracer) -> Value {
     let mut rng = rng_for(o.seed, 0xC16);
     let nflows = if o.quick() { 300 } else { 8000 };
-    let special: [(&str, &[u8]); 10] = [
+    let special: [(&str, &[u8]); 14] = [
         ("cookie", b"jar=1"), ("authorization", b"Bearer target-token"), ("content-length", b"0"), ("host", b"override.test"),
         ("connection", b"close"), ("Cookie", b"second=2"), ("x-1", b"one"), ("accept", b"*/*"),
         ("cookie", b"name=caf\xe9"), ("authorization", b"Basic \xff\xfe\x80"),
+        // the very values the original request carried, set again by the caller
+        ("cookie", b"orig-cookie=1"), ("authorization", b"Basic b3JpZw=="), ("x-keep", b"k"),
+        ("transfer-encoding", b"chunked"),
     ];
     for i in 0..nflows {
         let depth = i % 4;
@@ -497,6 +503,9 @@ pub fn c16(o: &Opts, t: &mut Tracer) -> Value {
         let mut added: Vec<(String, Vec<u8>)> = vec![];
         let mut have_host = false;
         let mut have_cl = false;
+        // send-body-despite-method on the (bodiless) request that is finally sent, before or after adding the headers
+        let final_bodiless = depth > 0 || !body_method;
+        let despite = final_bodiless && i % 3 == 0 && method != "HEAD";
         for k in 0..nadd {
             let (n, v) = if k % 3 == 0 || nadd < 4 { special[rng.gen_range(0..special.len())] } else { ("x-n", &b"n"[..]) };
             // keep the request valid (C17): one Host, one Content-Length, no body framing on bodiless methods
@@ -505,9 +514,15 @@ pub fn c16(o: &Opts, t: &mut Tracer) -> Value {
                 have_host = true;
             }
             if n == "content-length" {
-                // after a redirect the method is GET/HEAD (no body); on a fresh body flow the original already has one
-                if have_cl || depth > 0 || body_method || !body_method { continue; }
+                // body framing only where a body is sent: with send-body-despite-method (a fresh body flow
+                // already has a Content-Length among its original headers)
+                if have_cl || !despite { continue; }
                 have_cl = true;
+                t.class("c16:added-content-length");
+            }
+            if n == "transfer-encoding" {
+                if !despite && !(body_method && depth == 0) { continue; }
+                t.class("c16:added-transfer-encoding");
             }
             added.push((n.to_string(), v.to_vec()));
             if k == 1 && i % 3 == 0 {
@@ -516,9 +531,15 @@ pub fn c16(o: &Opts, t: &mut Tracer) -> Value {
             }
         }
         let hops: Vec<(u16, String)> = (0..depth).map(|d| (302u16, ["/next", "http://b.test/x", "https://h.test/s", "../up?q=1"][(i + d) % 4].to_string())).collect();
-        // send-body-despite-method on the (bodiless) request that is finally sent, before or after adding the headers
-        let final_bodiless = depth > 0 || !body_method;
-        let despite = final_bodiless && i % 3 == 0 && method != "HEAD";
+        if despite && i % 5 == 0 {
+            // both framing headers set by the caller, in either order: both must be on the wire
+            let cl = ("content-length".to_string(), b"5".to_vec());
+            let te = ("transfer-encoding".to_string(), b"chunked".to_vec());
+            if !have_cl {
+                if i % 2 == 0 { added.push(cl); added.push(te); } else { added.insert(0, te); added.push(cl); }
+                t.class("c16:added-both-framing-headers");
+            }
+        }
         if despite {
             t.class("c16:despite");
         }
@@ -545,8 +566,11 @@ pub fn c17(o: &Opts, t: &mut Tracer) -> Value {
                 for (ci, c) in cls.iter().enumerate() {
                     for (ti, te) in tes.iter().enumerate() {
                         for despite in [false, true] {
-                            for api in ["flow", "call_without", "call_with"] {
+                            for api in ["flow", "call_without", "call_with", "flow_redirected"] {
                                 n += 1;
+                                // the same request analysis applies to a flow created by following a redirect
+                                let redirected = api == "flow_redirected";
+                                let api = if redirected { "flow" } else { api };
                                 if api != "flow" && (despite || h.contains("added") || c.contains("added") || te.contains("added")) {
                                     continue;
                                 }
@@ -594,8 +618,9 @@ pub fn c17(o: &Opts, t: &mut Tracer) -> Value {
                                     _ => {}
                                 }
                                 orig.extend(gen_headers(&mut rng, (n % 3) as usize));
-                                let s = ReqSpec { method: m.to_string(), version: v, uri: "http://u.test/p?q=1".into(), orig, added, despite, api, hops: vec![], policy_same_host: false, despite_first: n % 2 == 0 };
-                                t.sig(format!("c17/{}/{}/{}/{}/{}/{}/{}", v, m, h, c, te, despite, api));
+                                let hops = if redirected { vec![([302u16, 301, 307, 303][n % 4], ["/next", "http://b.test/x"][(n / 4) % 2].to_string())] } else { vec![] };
+                                let s = ReqSpec { method: m.to_string(), version: v, uri: "http://u.test/p?q=1".into(), orig, added, despite, api, hops, policy_same_host: n % 3 == 0, despite_first: n % 2 == 0 };
+                                t.sig(format!("c17/{}/{}/{}/{}/{}/{}/{}/{}", v, m, h, c, te, despite, api, redirected));
                                 exercise(t, &s, &mut rng, 1, true, "c17");
                             }
                         }
